@@ -5,6 +5,8 @@ import (
 	"go/constant"
 	"go/token"
 	"go/types"
+	"os"
+	"strings"
 
 	"golang.org/x/tools/go/ssa"
 
@@ -1931,4 +1933,485 @@ func (c *Ctx) checkAcceptRecordedAfterPublished() {
 		}
 	}
 	r.Check(n >= 2, rule, "updates of the call record in functions that publish", "-", fmt.Sprintf("%d", n), "fewer than two: anchor lost")
+}
+
+// checkScalarCodecPairs (C20): two small codec pairs whose halves must agree.
+//   - base32 spelling of an id: Uid.String32 lower-cases the standard (upper-case alphabet) encoding;
+//     ParseUid32 must undo that (strings.ToUpper) before it decodes with the same alphabet, or every
+//     id whose spelling contains a letter decodes to the zero id.
+//   - timestamps on the wire are milliseconds: timeToInt64 divides nanoseconds by 1e6, int64ToTime
+//     must scale the sub-second remainder back by 1e6 (or use time.UnixMilli): passing milliseconds
+//     where time.Unix expects nanoseconds moves every timestamp received over gRPC by up to 999 ms.
+func (c *Ctx) checkScalarCodecPairs() {
+	r := c.R
+	callsNamed := func(fn *ssa.Function, pkg, name string) []*ssa.Call {
+		var out []*ssa.Call
+		if fn == nil {
+			return nil
+		}
+		core.AllInstrs(fn, func(in ssa.Instruction) {
+			if call, ok := in.(*ssa.Call); ok {
+				if f := core.CalleeOf(&call.Call); f != nil && f.Name() == name && f.Pkg() != nil && f.Pkg().Path() == pkg {
+					out = append(out, call)
+				}
+			}
+		})
+		return out
+	}
+	// (1) base32
+	enc := c.ssaMethod("server/store/types", "Uid", "String32")
+	dec := c.ssaFn("server/store/types", "ParseUid32")
+	if enc != nil && dec != nil {
+		r.Func(fk(enc))
+		r.Func(fk(dec))
+		lower := len(callsNamed(enc, "strings", "ToLower")) > 0
+		upperE := len(callsNamed(enc, "strings", "ToUpper")) > 0
+		decodes := callsNamed(dec, "encoding/base32", "DecodeString")
+		okPair := true
+		why := ""
+		if lower && !upperE {
+			// the decoder's input must pass through ToUpper
+			okPair = false
+			why = "String32 lower-cases the encoding, ParseUid32 decodes with the upper-case alphabet without upper-casing its input"
+			for _, d := range decodes {
+				args := core.CallArgs(&d.Call)
+				for _, a := range args {
+					if call, isCall := core.Strip(a).(*ssa.Call); isCall {
+						if f := core.CalleeOf(&call.Call); f != nil && f.Name() == "ToUpper" {
+							okPair = true
+						}
+					}
+				}
+			}
+		}
+		r.Check(okPair && len(decodes) > 0, "C20.4e-base32-case-agreement", "Uid.String32 / ParseUid32 agree on the case of the base32 spelling", c.P.Pos(dec.Pos()), "",
+			why+": ParseUid32(uid.String32()) is the zero id for every id whose spelling contains a letter")
+	}
+	// (2) milliseconds
+	toT := c.ssaFn("server", "int64ToTime")
+	fromT := c.ssaFn("server", "timeToInt64")
+	if toT != nil && fromT != nil {
+		r.Func(fk(toT))
+		good := len(callsNamed(toT, "time", "UnixMilli")) > 0
+		var at ssa.Instruction
+		for _, u := range callsNamed(toT, "time", "Unix") {
+			at = u
+			if len(u.Call.Args) == 2 {
+				if b, ok := core.Strip(u.Call.Args[1]).(*ssa.BinOp); ok && b.Op == token.MUL {
+					for _, side := range []ssa.Value{b.X, b.Y} {
+						if k, isK := core.Strip(side).(*ssa.Const); isK && k.Value != nil && k.Value.ExactString() == "1000000" {
+							good = true
+						}
+					}
+				}
+			}
+		}
+		pos := c.P.Pos(toT.Pos())
+		if at != nil {
+			pos = c.pos(at)
+		}
+		r.Check(good, "C20.2c-millisecond-timestamps-inverse", "int64ToTime scales the sub-second part of a millisecond timestamp to nanoseconds", pos, "",
+			"time.Unix receives the millisecond remainder as nanoseconds: a timestamp received over gRPC (if-modified-since, created/updated/touched) differs by up to 999 ms from the same timestamp received as JSON")
+	}
+}
+
+// checkTopicRepliesAnswer (C13): the per-part handlers of {get}/{set}/{del} on a live topic
+// (methods of Topic named reply*, which receive the session and the request) answer on every path:
+// each path from entry to a return passes a reply (queueOut) or a hand-off that owes one, store
+// failures aside (the same path analysis as for the session-level handlers, one level further down).
+func (c *Ctx) checkTopicRepliesAnswer() {
+	r := c.R
+	const rule = "C13.3f-topic-part-handlers-reply"
+	ra := c.newReplyAnalysis()
+	ra.initExempt = true
+	n := 0
+	for _, fn := range c.P.ModFuncs {
+		if !core.InPkg(fn, "server") || fn.Parent() != nil || !isPtrToNamedRecv(fn, "Topic") || !strings.HasPrefix(fn.Name(), "reply") {
+			continue
+		}
+		if !takesRequest(fn) {
+			continue
+		}
+		n++
+		r.Func(fk(fn))
+		ok := ra.always(fn)
+		detail := ""
+		if !ok {
+			detail = "a path from entry to the return at " + c.pos(ra.witness[fn]) + " passes neither a reply (queueOut) nor a hand-off to a consumer that owes one: the request id is never answered"
+			if culprit := ra.firstNonReplyingCallee(fn); culprit != "" {
+				detail += "; " + culprit
+			}
+		}
+		r.Check(ok, rule, fk(fn)+": every path answers", c.P.Pos(fn.Pos()), "", detail)
+	}
+	if os.Getenv("VERIF_DEBUG") != "" {
+		for fn, st := range ra.errMemo {
+			if st == 3 {
+				found, w := core.PathAvoiding(fn, nil, func(in ssa.Instruction) bool {
+					ret, ok := in.(*ssa.Return)
+					return ok && errIndex(fn.Signature) >= 0 && !core.IsNil(ret.Results[errIndex(fn.Signature)])
+				}, ra.isReplyInstr, ra.cuts(fn))
+				fmt.Printf("DEBUG errsilent: %s found=%v witness %s\n", fk(fn), found, posOf(c, w))
+			}
+		}
+	}
+	r.Check(n >= 8, rule, "reply* methods of Topic examined", "-", fmt.Sprintf("%d", n), "fewer than eight: anchor lost")
+}
+
+// checkReplyWrappersEchoId (C13): the `XxxReply(msg *ClientComMessage, ...)` wrappers build the
+// answer to a request from the request itself: the constructor they call receives the request's id
+// as its id and the name by which the client addressed the topic as its topic - in that order (both
+// are strings; a transposed pair compiles and answers another id).
+func (c *Ctx) checkReplyWrappersEchoId() {
+	r := c.R
+	const rule = "C13.4b-reply-wrappers-echo-id"
+	idF := c.field("server", "ClientComMessage", "Id")
+	origF := c.field("server", "ClientComMessage", "Original")
+	if idF == nil || origF == nil {
+		return
+	}
+	isStr := func(t types.Type) bool {
+		b, ok := t.Underlying().(*types.Basic)
+		return ok && b.Kind() == types.String
+	}
+	n := 0
+	for _, fn := range c.P.ModFuncs {
+		if !core.InPkg(fn, "server") || fn.Parent() != nil || takesRequest(fn) || fn.Signature.Recv() != nil {
+			continue
+		}
+		// a reply constructor (returns *ServerComMessage) that takes the request
+		hasReq := false
+		var reqP *ssa.Parameter
+		for _, p := range fn.Params {
+			if isPtrToNamed(p.Type(), "ClientComMessage") {
+				hasReq, reqP = true, p
+			}
+		}
+		if !hasReq || fn.Signature.Results().Len() != 1 || !isPtrToNamed(fn.Signature.Results().At(0).Type(), "ServerComMessage") {
+			continue
+		}
+		core.AllInstrs(fn, func(in ssa.Instruction) {
+			call, ok := in.(*ssa.Call)
+			if !ok {
+				return
+			}
+			g := call.Call.StaticCallee()
+			if g == nil || !core.InPkg(g, "server") || g.Signature.Params().Len() < 2 || !isStr(g.Signature.Params().At(0).Type()) || !isStr(g.Signature.Params().At(1).Type()) {
+				return
+			}
+			if g.Signature.Results().Len() != 1 || !isPtrToNamed(g.Signature.Results().At(0).Type(), "ServerComMessage") {
+				return
+			}
+			fromReq := func(v ssa.Value, f *types.Var) bool {
+				g2, base := core.LoadedField(core.Strip(v))
+				return g2 == f && base != nil && core.Strip(base) == ssa.Value(reqP)
+			}
+			a0, a1 := call.Call.Args[0], call.Call.Args[1]
+			// only wrappers that take both from the request
+			if !(fromReq(a0, idF) || fromReq(a0, origF)) || !(fromReq(a1, idF) || fromReq(a1, origF)) {
+				return
+			}
+			n++
+			r.Func(fk(fn))
+			r.Check(fromReq(a0, idF) && fromReq(a1, origF), rule, fk(fn)+": id and topic of the reply are the request's id and addressed name", c.pos(call), "",
+				"the wrapper hands the request's id and the addressed topic name to the constructor in the wrong order: the reply carries the topic name as its id, so the client never sees an answer to its request")
+		})
+	}
+	r.Check(n >= 10, rule, "reply wrappers examined", "-", fmt.Sprintf("%d", n), "fewer than ten: anchor lost")
+}
+
+// checkNoRefusalAfterSave (C15): a refused invitation leaves no trace: once saveAndBroadcastMessage
+// succeeded for a request (the message is stored, numbered, acknowledged and delivered), the
+// function does not go on to refuse that request (no 4xx/5xx reply constructor is reachable from the
+// success edge of the save). The busy test therefore comes before the save.
+func (c *Ctx) checkNoRefusalAfterSave() {
+	r := c.R
+	const rule = "C15.1e-no-refusal-after-save"
+	save := c.method("server", "Topic", "saveAndBroadcastMessage")
+	neg := c.replyCtorsByCode(400, 600)
+	if save == nil || len(neg) == 0 {
+		c.lost("saveAndBroadcastMessage / negative reply constructors")
+		return
+	}
+	n := 0
+	for _, fn := range c.P.ModFuncs {
+		if !core.InPkg(fn, "server") {
+			continue
+		}
+		for _, site := range core.CallsTo(fn, save) {
+			n++
+			r.Func(fk(fn))
+			pe, cnt := core.PassEdges(fn, successGuard(site))
+			isNeg := func(in ssa.Instruction) bool {
+				call, ok := in.(*ssa.Call)
+				if !ok {
+					return false
+				}
+				cal := call.Call.StaticCallee()
+				return cal != nil && neg[cal]
+			}
+			var found bool
+			var w ssa.Instruction
+			if cnt[0] > 0 {
+				found, w = core.PathFromEdgeAvoiding(fn, pe, isNeg, nil, nil)
+			} else {
+				found, w = core.PathAvoiding(fn, site.(ssa.Instruction), isNeg, nil, nil)
+			}
+			construct := fk(fn) + ": no refusal once the message was saved"
+			if k := countSame(r, rule, construct); k > 0 {
+				construct = fmt.Sprintf("%s #%d", construct, k+1)
+			}
+			r.Check(!found, rule, construct, c.pos(site), "",
+				"after the message was saved and broadcast the request can still be refused"+posOf(c, w)+": the refused request has left a stored, numbered and delivered message behind (for a call: a second invitation answered busy and published all the same)")
+		}
+	}
+	r.Check(n >= 3, rule, "calls of saveAndBroadcastMessage examined", "-", fmt.Sprintf("%d", n), "fewer than three: anchor lost")
+}
+
+// checkAvatarLinkedAfterWrite (C16): the avatar of a topic or account is re-linked (which unlinks
+// the previous upload, making it collectable) only after the description that refers to it was
+// written: on the paths where Users.Update / Topics.Update failed, Files.LinkAttachments is not
+// reached.
+func (c *Ctx) checkAvatarLinkedAfterWrite() {
+	r := c.R
+	const rule = "C16.5e-avatar-linked-after-write"
+	link := c.E().storeIface("FilePersistenceInterface", "LinkAttachments")
+	upds := []*types.Func{c.E().storeIface("UsersPersistenceInterface", "Update"), c.E().storeIface("TopicsPersistenceInterface", "Update")}
+	n := 0
+	for _, fn := range c.funcsCalling(link, "server") {
+		links := core.CallsTo(fn, link)
+		for _, u := range upds {
+			for _, site := range core.CallsTo(fn, u) {
+				call, ok := site.(*ssa.Call)
+				if !ok {
+					continue
+				}
+				ei := errIndex(call.Call.Signature())
+				if ei < 0 {
+					continue
+				}
+				n++
+				r.Func(fk(fn))
+				facts := core.NilFacts{}
+				if errV := errValue(call, ei); errV != nil {
+					facts[errV] = false
+				}
+				facts[core.ResultFact(call, ei)] = false
+				reached := false
+				res := core.NilWalkAfterWith(fn, call, facts, nil, nil, func(in ssa.Instruction, _ core.NilFacts) {
+					for _, l := range links {
+						if in == l.(ssa.Instruction) {
+							reached = true
+						}
+					}
+				})
+				construct := fmt.Sprintf("%s: no avatar link after a failed %s", fk(fn), describeCall(call))
+				r.Check(!reached && !res.Overflow, rule, construct, c.pos(call), "",
+					"the new avatar is linked (and the previous one unlinked, so that the garbage collector may remove it) although the description update failed: the topic keeps showing an avatar that is about to be deleted")
+			}
+		}
+	}
+	if n == 0 {
+		r.Info(rule, "description updates followed by an avatar link", "-", "none on this tree")
+	}
+}
+
+// checkLocalCopyWrittenBack (C08, C03, C02): Topic.perUser holds records by value; a handler works
+// on a local copy and writes it back. A field of the copy changed *after* the last write-back on
+// some path never reaches the live topic: the store, the reply and the notifications show the new
+// value, the topic keeps deciding on the old one. For every local record that is written back
+// somewhere in the function: from every store into one of its fields, every path to a return passes
+// a write-back of that record (store failures and error returns aside: on those nothing is to be
+// kept).
+func (c *Ctx) checkLocalCopyWrittenBack(rule string, only map[string]bool) {
+	r := c.R
+	pudT := c.P.NamedType("server", "perUserData")
+	perUser := c.E().topicField("perUser")
+	if pudT == nil || perUser == nil {
+		return
+	}
+	n := 0
+	for _, fn := range c.P.ModFuncs {
+		if !core.InPkg(fn, "server") || fn.Parent() != nil {
+			continue
+		}
+		cut := c.storeFailEdges(fn)
+		core.AllInstrs(fn, func(in ssa.Instruction) {
+			al, ok := in.(*ssa.Alloc)
+			if !ok || al.Referrers() == nil {
+				return
+			}
+			if pt, ok := al.Type().(*types.Pointer); !ok || !types.Identical(pt.Elem(), pudT) {
+				return
+			}
+			// write-backs: t.perUser[k] = *al
+			isWB := func(x ssa.Instruction) bool {
+				mu, ok := x.(*ssa.MapUpdate)
+				if !ok || !core.IsFieldLoad(perUser)(mu.Map) {
+					return false
+				}
+				ld, ok := mu.Value.(*ssa.UnOp)
+				return ok && ld.Op == token.MUL && ld.X == ssa.Value(al)
+			}
+			hasWB := false
+			core.AllInstrs(fn, func(x ssa.Instruction) {
+				if isWB(x) {
+					hasWB = true
+				}
+			})
+			if !hasWB {
+				return
+			}
+			// a whole-record store (re-read from the map, fresh literal) starts a new copy
+			isOKEnd := func(x ssa.Instruction) bool {
+				if isWB(x) {
+					return true
+				}
+				// the copy is replaced as a whole (re-read): what was stored is abandoned by design
+				if s2, ok := x.(*ssa.Store); ok && s2.Addr == ssa.Value(al) {
+					return true
+				}
+				return false
+			}
+			isSuccRet := func(x ssa.Instruction) bool {
+				ret, ok := x.(*ssa.Return)
+				if !ok {
+					return false
+				}
+				if ei := errIndex(fn.Signature); ei >= 0 && ei < len(ret.Results) {
+					if k, isK := ret.Results[ei].(*ssa.Const); !isK || k.Value != nil {
+						return false // an error return: nothing is to be kept
+					}
+				}
+				return true
+			}
+			var badFields []string
+			var where ssa.Instruction
+			var first ssa.Instruction
+			for _, ref := range *al.Referrers() {
+				fa, ok := ref.(*ssa.FieldAddr)
+				if !ok || fa.Referrers() == nil {
+					continue
+				}
+				f, _ := core.FieldOfAddr(fa)
+				for _, r2 := range *fa.Referrers() {
+					st, ok := r2.(*ssa.Store)
+					if !ok || st.Addr != ssa.Value(fa) {
+						continue
+					}
+					if only != nil && (f == nil || !only[f.Name()]) {
+						continue
+					}
+					n++
+					if found, w := core.PathAvoiding(fn, st, isSuccRet, isOKEnd, cut); found {
+						name := "?"
+						if f != nil {
+							name = f.Name()
+						}
+						dup := false
+						for _, b := range badFields {
+							if b == name {
+								dup = true
+							}
+						}
+						if !dup {
+							badFields = append(badFields, name)
+						}
+						if where == nil {
+							where, first = w, st
+						}
+					}
+				}
+			}
+			r.Func(fk(fn))
+			sortStrings(badFields)
+			construct := fmt.Sprintf("%s: changes of the local per-user record are written back", fk(fn))
+			if k := countSame(r, rule, construct); k > 0 {
+				construct = fmt.Sprintf("%s #%d", construct, k+1)
+			}
+			pos := c.pos(al)
+			if first != nil {
+				pos = c.pos(first)
+			}
+			r.Check(len(badFields) == 0, rule, construct, pos, "",
+				fmt.Sprintf("%v set on the local copy reach a success return%s without a write-back to Topic.perUser: the live topic keeps the old value while the store, the reply and the notifications carry the new one", badFields, posOf(c, where)))
+		})
+	}
+	r.Check(n >= 4, rule, "field stores into local copies of per-user records", "-", fmt.Sprintf("%d", n), "fewer than four: anchor lost")
+}
+
+// checkNoticeOldSideIsSnapshot (C05, C08): a change notice carries the textual difference between
+// the modes before and after; trackers apply it. The "before" arguments of Topic.notifySubChange
+// (the first two of its four AccessMode parameters) must be what the record held before the handler
+// touched it: where such an argument is read from a field of a local record, no store to that field
+// of that record reaches the read. Otherwise old equals new, the difference is empty and the other
+// sessions and the cluster proxy keep the previous modes.
+func (c *Ctx) checkNoticeOldSideIsSnapshot(rule string) {
+	r := c.R
+	nsc := c.ssaMethod("server", "Topic", "notifySubChange")
+	am := c.P.NamedType("server/store/types", "AccessMode")
+	if nsc == nil || am == nil {
+		return
+	}
+	var modeIdx []int
+	for i, p := range nsc.Params {
+		if types.Identical(p.Type(), am) {
+			modeIdx = append(modeIdx, i)
+		}
+	}
+	if len(modeIdx) != 4 {
+		c.lost("notifySubChange with four AccessMode parameters")
+		return
+	}
+	flds := map[*types.Var]bool{c.E().pudField("modeGiven"): true, c.E().pudField("modeWant"): true}
+	n := 0
+	for _, cs := range c.callersOf(nsc) {
+		call, ok := cs.Site.(*ssa.Call)
+		if !ok || call.Call.StaticCallee() != nsc {
+			continue
+		}
+		fn := cs.Caller
+		for _, ai := range modeIdx[:2] {
+			if ai >= len(call.Call.Args) {
+				continue
+			}
+			var loads []*ssa.UnOp
+			collectLeaves(call.Call.Args[ai], func(v ssa.Value) {
+				if u, ok := v.(*ssa.UnOp); ok && u.Op == token.MUL {
+					if f, _ := core.FieldOfAddr(u.X); f != nil && flds[f] {
+						if fa, ok := u.X.(*ssa.FieldAddr); ok {
+							if _, isLocal := fa.X.(*ssa.Alloc); isLocal {
+								loads = append(loads, u)
+							}
+						}
+					}
+				}
+			})
+			for _, ld := range loads {
+				fa := ld.X.(*ssa.FieldAddr)
+				f, _ := core.FieldOfAddr(fa)
+				n++
+				r.Func(fk(fn))
+				var late ssa.Instruction
+				for _, st := range core.StoresToField(fn, f) {
+					fa2, ok := st.Addr.(*ssa.FieldAddr)
+					if !ok || fa2.X != fa.X {
+						continue
+					}
+					if found, _ := core.PathAvoiding(fn, st, func(in ssa.Instruction) bool { return in == ssa.Instruction(ld) }, nil, nil); found {
+						late = st
+					}
+				}
+				construct := fmt.Sprintf("%s: 'before' %s handed to notifySubChange is read before the record is modified", fk(fn), f.Name())
+				if k := countSame(r, rule, construct); k > 0 {
+					construct = fmt.Sprintf("%s #%d", construct, k+1)
+				}
+				r.Check(late == nil, rule, construct, c.pos(ld), "",
+					"the 'before' mode is read after the record was already modified"+posOf(c, late)+": the notice carries an empty difference, the user's other sessions and the cluster proxy keep the previous modes")
+			}
+		}
+	}
+	if n == 0 {
+		r.Info(rule, "'before' arguments of notifySubChange read from local records", "-", "none on this tree")
+	}
 }
